@@ -6,7 +6,9 @@
 (* A chain is a sequence of steps                                           *)
 (*   [op |-> "install", vals, chart]                                        *)
 (*   [op |-> "upgrade", mode \in {"default","reset","reuse","rtr"}, vals,   *)
-(*                      chart]          (rtr = reset-then-reuse-values)     *)
+(*                      chart, fail]    (rtr = reset-then-reuse-values)     *)
+(*        fail: the cluster update of this upgrade fails - the revision is  *)
+(*        recorded (status failed) and the deployed revision stays deployed *)
 (*   [op |-> "rollback", target]                                            *)
 (* vals: map function (the values given on the command line of that step),  *)
 (* chart: index into Defaults (the chart version's values.yaml).            *)
@@ -31,6 +33,10 @@ EXTENDS Values
 CONSTANT Defaults      \* sequence of map functions: values.yaml of chart version 1, 2, ...
 
 IsUp(s) == s.op = "upgrade"
+Fails(s) == s.op = "upgrade" /\ s.fail
+\* the deployed revision before step n: the newest one whose step succeeded (step 1, the install, always does)
+RECURSIVE DepAt(_, _)
+DepAt(steps, n) == IF n <= 2 THEN n - 1 ELSE IF Fails(steps[n - 1]) THEN DepAt(steps, n - 1) ELSE n - 1
 Carries(s) == IsUp(s) /\ s.mode \in {"reuse", "rtr"}
 
 (* ----- property-shaped ---------------------------------------------------- *)
@@ -41,8 +47,8 @@ NullOverSet(new, old) ==
      \/ IsNull(new[x])
      \/ IsMap(new[x]) /\ IsMap(old[x]) /\ NullOverSet(new[x].m, old[x].m)
 
-PropStep(revs, s) ==
-  LET dep == revs[Len(revs)] IN      \* every step of a chain succeeds: the last revision is the deployed one
+PropStep(revs, s, d) ==             \* d: index of the deployed revision
+  LET dep == revs[d] IN
   CASE s.op = "install"  -> [hist |-> <<Mp(s.vals)>>, defs |-> Defaults[s.chart]]
     [] s.op = "rollback" -> revs[s.target]
     [] s.mode = "reset"  -> [hist |-> <<Mp(s.vals)>>, defs |-> Defaults[s.chart]]
@@ -52,7 +58,7 @@ PropStep(revs, s) ==
 
 RECURSIVE PropRevs(_, _)
 PropRevs(steps, n) ==      \* the property's view of revisions 1..n
-  IF n = 0 THEN <<>> ELSE LET r == PropRevs(steps, n - 1) IN Append(r, PropStep(r, steps[n]))
+  IF n = 0 THEN <<>> ELSE LET r == PropRevs(steps, n - 1) IN Append(r, PropStep(r, steps[n], DepAt(steps, n)))
 
 \* recorded values of the new revision, judged against the deployed revision's RECORDED values
 \* (dep: map function) - the statement of C13 read step by step
@@ -67,8 +73,8 @@ ConfigOk(s, depCfg, tgtCfg, newCfg) ==
 EffectiveOk(p, eff) == Ok(<<Mp(p.defs)>> \o p.hist, Norm(eff), FALSE)
 
 (* ----- code-shaped ---------------------------------------------------------- *)
-CodeStep(revs, s) ==
-  LET dep == revs[Len(revs)] IN
+CodeStep(revs, s, d) ==             \* prepareUpgrade: currentRelease = Releases.Deployed(name)
+  LET dep == revs[d] IN
   CASE s.op = "install"  -> [cfg |-> s.vals, chartvals |-> Defaults[s.chart]]
     [] s.op = "rollback" -> revs[s.target]
     [] s.mode = "reset"  -> [cfg |-> s.vals, chartvals |-> Defaults[s.chart]]
@@ -80,7 +86,7 @@ CodeStep(revs, s) ==
 
 RECURSIVE CodeRevs(_, _)
 CodeRevs(steps, n) ==
-  IF n = 0 THEN <<>> ELSE LET r == CodeRevs(steps, n - 1) IN Append(r, CodeStep(r, steps[n]))
+  IF n = 0 THEN <<>> ELSE LET r == CodeRevs(steps, n - 1) IN Append(r, CodeStep(r, steps[n], DepAt(steps, n)))
 
 CodeEffective(r) == Mp(CoalesceValues([name |-> "root", vals |-> r.chartvals, deps |-> <<>>], r.cfg).v)
 
@@ -92,6 +98,6 @@ L18Lineage(steps, cfgs, n) ==
   CASE s.op = "install"  -> FALSE
     [] s.op = "rollback" -> L18Lineage(steps, cfgs, s.target)
     [] s.mode = "reset"  -> FALSE
-    [] Carries(s)        -> NullOverSet(s.vals, cfgs[n - 1]) \/ L18Lineage(steps, cfgs, n - 1)
-    [] OTHER             -> IF s.vals # <<>> THEN FALSE ELSE L18Lineage(steps, cfgs, n - 1)
+    [] Carries(s)        -> NullOverSet(s.vals, cfgs[DepAt(steps, n)]) \/ L18Lineage(steps, cfgs, DepAt(steps, n))
+    [] OTHER             -> IF s.vals # <<>> THEN FALSE ELSE L18Lineage(steps, cfgs, DepAt(steps, n))
 =============================================================================
